@@ -249,7 +249,7 @@ pub fn run(rep: &mut Report) {
     sweep(rep, "c07.zero", 2, |i, out| j_zero([TimeScale::ET, TimeScale::TDB][i as usize], out));
     // order independence (depth-2 operation sequences on one thread): forward and reverse conversions at 12 instants
     {
-        let inst: Vec<i128> = [-100i128, -1, 0, 1, 7, 25, 60, 100].iter().map(|y| J2000_TAI + y * 31_557_600 * NS_S + 13 * 86_400 * NS_S * (y % 5)).chain([J2000_TAI - 1, J2000_TAI + 32 * NS_S, J2000_TAI + NPC + 10 * NS_S, J2000_TAI - NPC + 20 * NS_S]).collect();
+        let inst: Vec<i128> = [-100i128, -1, 0, 1, 7, 25, 60, 100].iter().map(|y| J2000_TAI + y * 31_557_600 * NS_S + 13 * 86_400 * NS_S * (y % 5)).chain([J2000_TAI - 1, J2000_TAI + 32 * NS_S, J2000_TAI + NPC + 10 * NS_S, J2000_TAI - NPC + 20 * NS_S, 7_305 * 86_400 * NS_S + 123_456_789, -(7_305 * 86_400 * NS_S + 123_456_789), J2000_TAI + 7_305 * 86_400 * NS_S + 9, J2000_TAI - 7_305 * 86_400 * NS_S - 9]).collect();
         let ni = inst.len() as u64;
         let mm = &m;
         crate::engine::order_pairs(rep, "c07.order", ni * 4, |i, out| {
